@@ -76,12 +76,22 @@ def check(ctx):
     b = [qn for qn, f in model.module(EMG).functions() if "_is_numeric_cast_type(dtype)" in unparse(f) and "np.float64" in unparse(f)]
     ctx.ob("ALG.partition-function.same-normalisation", f"{ESH}::<module>", "shuffle and merge transfer both hash numeric keys as float64", bool(a) and bool(b))
     T.argpos(ctx, lambda p: p == ESH, "c40", floor=15)
+    # ---------------- presorted: partitions may be kept only if every maximum is STRICTLY below the next minimum
+    cd = ctx.model.module("dask/dataframe/dask_expr/_shuffle.py").func("_calculate_divisions")
+    ps = find("presorted = M_v", cd)
+    conj = [v for n_, b in ps for v in (b["M_v"].values if isinstance(b["M_v"], ast.BoolOp) else [b["M_v"]])]
+    strict = [v for v in conj if unparse(v) == "(maxes2 < mins2).all()"]
+    ok = len(strict) == 1 and any(const(b["M_v"]) is False for n_, b in ps)
+    ctx.ob("ORD.presorted-strict", cd, "presorted requires (maxes2 < mins2).all(): a key shared by two neighbouring partitions forces a shuffle", ok, "" if ok else "equality at a partition boundary is accepted: the same key ends up in two output partitions although the divisions promise one")
+    ok = bool(find("maxes2 = (maxes.iloc[:n - 1] if ascending else maxes.iloc[1:]).reset_index(drop=True)", cd)) and bool(find("mins2 = (mins.iloc[1:] if ascending else mins.iloc[:n - 1]).reset_index(drop=True)", cd))
+    ctx.ob("ORD.presorted-neighbours", cd, "maxes of partition i are compared with mins of partition i+1 (mirrored when descending)", ok)
     from ._claims import check_claims
 
     check_claims(ctx)
 
 
 VARIANTS = [
+    ("dask/dataframe/dask_expr/_shuffle.py", "            and (maxes2 < mins2).all()", "            and (maxes2 <= mins2).all()", "ORD.presorted-strict"),
     (SH, "    res = hash_object_dispatch(df, index=False) % int(npartitions)", "    res = hash_object_dispatch(df, index=True) % int(npartitions)", "ALG.partition-function.hash"),
     (SH, "    res = hash_object_dispatch(df, index=False) % int(npartitions)", "    res = hash_object_dispatch(df, index=False) % int(npartitions - 1)", "ALG.partition-function.modulo"),
     (ESH, "        index = partitioning_index(index, npartitions)\n        if df.ndim == 1:", "        index = partitioning_index(df, npartitions)\n        if df.ndim == 1:", "ALG.partition-function.caller"),
